@@ -61,6 +61,8 @@ def twin(I, expr_k, stats, timeout_ms=20000):
 def sym_values(model, names):
     vals = {}
     for n in names:
+        if n.startswith("@phi"):
+            continue  # the bounded constant 1/sqrt(2 pi) of the reference (half-normal moments), not a program symbol
         vals[n] = Fraction(model.get(n, 0)) if not isinstance(model.get(n, 0), bool) else Fraction(0)
     return vals
 
